@@ -755,12 +755,23 @@ def draw_fault(draw, S: GState, P: dict):
     i = draw(st.integers(0, len(S.declared) - 1))
     c = S.declared[i]
     cs = c["cs"]
-    f = draw(st.sampled_from([
+    kinds = [
         "duration", "amp", "det", "qubit", "too_many_targets", "channel",
         "protocol", "basis", "eom_outside", "add_on_dmm", "delay_bad",
         "long", "align_one", "align_dup", "target_global", "declare_dup",
         "delay_at_rest_short",
-    ]))
+    ]
+    if c.get("eom") and cs.get("eom"):
+        # the channel is in EOM mode: refused EOM controls (they act in several steps)
+        kinds += ["eom_modify_bad", "eom_modify_bad", "eom_enable_again", "eom_pulse_bad"]
+    f = draw(st.sampled_from(kinds))
+    if f == "eom_modify_bad":
+        return dict(op="modify_eom", ch=i, amp_on=draw(st.sampled_from([1e5, -1.0, 0.0])),
+                    det_on=draw(st.sampled_from([0.0, 1e5])), fault=f)
+    if f == "eom_enable_again":
+        return dict(op="enable_eom", ch=i, amp_on=1.0, det_on=0.0, fault=f)
+    if f == "eom_pulse_bad":
+        return dict(op="add_eom", ch=i, d=draw(st.sampled_from([0, -4])), phase=0.0, fault=f)
     if f in ("duration", "amp", "det"):
         return dict(op="add", ch=i, pulse=draw(pulse_specs(cs, fault=f)), fault=f)
     if f == "qubit":
